@@ -98,7 +98,7 @@ def run_family(tag, fam, seed, total, per_prog=150):
             for line in obs:
                 parts = line.split(' ', 2)
                 if len(parts) == 3:
-                    out['cells'] += len(parts[2]) if parts[1] != 'hash' else 1
+                    out['cells'] += len(parts[2]) if parts[1] in ('eq', 'pcmp', 'cmp') else 1
                     out['observed'].setdefault(f"{res['start']}:{parts[0]}", []).append((parts[1], parts[2]))
                 elif len(parts) == 2:
                     out['observed'].setdefault(f"{res['start']}:{parts[0]}", []).append((parts[1], ''))
